@@ -361,7 +361,7 @@ def h2(facts, tier):
 # ---------------------------------------------------------------------------------------------
 # P2 / P5: the Packed decision against the compiler's layout
 
-@rule("P2", ["C04", "C01", "C12", "C18", "C10"], floor=250, doc="whenever repr_c_optimization_safe(v) can answer yes for a corpus type, rustc's layout of the type is "
+@rule("P2", ["C04", "C01", "C02", "C12", "C18", "C10"], floor=250, doc="whenever repr_c_optimization_safe(v) can answer yes for a corpus type, rustc's layout of the type is "
       "byte-identical to its field-by-field encoding at v (fields in wire order, contiguous from 0 to size_of, no padding, tag = "
       "variant index in the wire width, every wire field present in memory and vice versa)")
 def p2(facts, tier):
@@ -383,7 +383,7 @@ def p2(facts, tier):
                 ok, why = orc.ok(ty, v)
                 if not ok and bad is None:
                     bad = (v, why)
-        props = ["C04", "C01", "C12"] + (["C18", "C10"] if cur > 0 else [])
+        props = ["C04", "C01", "C02", "C12"] + (["C18", "C10"] if cur > 0 else [])
         if bad:
             v, why = bad
             root = root_cause(pe, orc, ty, v)
